@@ -7,6 +7,7 @@ import (
 	"fmt"
 	"io"
 	"net/http"
+	"net/url"
 	"sort"
 	"time"
 
@@ -373,6 +374,7 @@ func sweepParts(r *hx.Run, p *pipeline, transit []byte, idx int, rnd *hx.Rand, c
 func runTransfers(r *hx.Run, rnd *hx.Rand, cfg hx.Config) {
 	r.Op("reset", "ok", false)
 	runTransportTie(r, rnd.Fork(), cfg)
+	runLoopbackFetch(r, rnd.Fork(), cfg)
 	ps := pipelines(cfg.Corpus)
 	for pi := range ps {
 		p := &ps[pi]
@@ -400,6 +402,73 @@ func runTransfers(r *hx.Run, rnd *hx.Rand, cfg hx.Config) {
 			}
 			for i, file := range files {
 				sweepBz2Blocks(r, p, file, i, rnd.Fork(), cfg)
+			}
+		}
+	}
+}
+
+// toServer sends every request to the loopback server, whatever host the
+// updater was configured with, through net/http's real transport.
+type toServer struct {
+	base *url.URL
+	rt   http.RoundTripper
+}
+
+func (t toServer) RoundTrip(req *http.Request) (*http.Response, error) {
+	r2 := req.Clone(req.Context())
+	r2.URL.Scheme, r2.URL.Host, r2.Host = t.base.Scheme, t.base.Host, t.base.Host
+	return t.rt.RoundTrip(r2)
+}
+
+// runLoopbackFetch runs the real Fetch and Parse of the single-download
+// updaters against a loopback TCP server that writes the scripted response
+// byte for byte: net/http's client is in the path. The outcome must be the
+// one the in-process transport gives for the same script, and obey the
+// statement.
+func runLoopbackFetch(r *hx.Run, rnd *hx.Rand, cfg hx.Config) {
+	srv := registry.NewServer()
+	defer srv.Close()
+	base, _ := url.Parse(srv.URL(""))
+	ps := pipelines(cfg.Corpus)
+	for pi := range ps {
+		p := &ps[pi]
+		if p.path == "" {
+			continue
+		}
+		var transit []byte
+		if p.gen != nil {
+			transit = p.gen(rnd, 1+rnd.Intn(2))
+		} else if len(p.fixed) > 0 {
+			transit = p.fixed[int(cfg.Seed)%len(p.fixed)]
+		} else {
+			continue
+		}
+		aux := p.intactAux(transit)
+		intact := guard(func() result { return p.runSite(body{data: transit}, aux) })
+		if !intact.ok() {
+			continue
+		}
+		f := &feed{t: &target{name: "pipe-" + p.name, valid: p.valid, class: p.class}, idx: 200, spool: transit, intact: intact}
+		for i := 0; i < cfg.N(5, 25) && !r.Stop(); i++ {
+			sc, _ := genScript(rnd, transit)
+			if sc.End == registry.EndReset {
+				sc.End = registry.EndClose // a reset may discard bytes the peer has not read
+			}
+			for k, v := range hdrFor(aux) {
+				sc.Header.Set(k, v)
+			}
+			srv.Set(p.path, sc)
+			tr := &http.Transport{DisableKeepAlives: true}
+			over := guard(func() result { return p.runClient(&http.Client{Transport: toServer{base, tr}}) })
+			tr.CloseIdleConnections()
+			inproc := guard(func() result { return p.runSite(body{script: sc}, aux) })
+			desc := "loopback " + sc.Describe()
+			r.Case(fmt.Sprintf("loopback %s %s", p.name, desc), true)
+			data, term := sc.Delivered()
+			cl := judge(r, f, "loopback", desc, data, term == registry.TermEOF, over)
+			r.Count("loopback:" + p.name + ":" + cl)
+			if cl != classify(intact, inproc) {
+				r.Fail("", fmt.Sprintf("the in-process transport and net/http over loopback disagree: pipeline=%s %s loopback=%s in-process=%s", p.name, desc, cl, classify(intact, inproc)))
 			}
 		}
 	}
